@@ -112,9 +112,12 @@ namespace pika::thread_pool_bulk_detail {
                 {
                     auto const i_begin =
                         static_cast<Shape>(index) * static_cast<Shape>(task_f->chunk_size);
-                    auto const i_end = (std::min)(
-                        (static_cast<Shape>(index) + 1) * static_cast<Shape>(task_f->chunk_size),
-                        task_f->n);
+                    // The last chunk may be shorter. Written so that it cannot overflow Shape for n
+                    // close to the maximum of Shape.
+                    auto const i_end =
+                        static_cast<std::uint64_t>(task_f->n - i_begin) > task_f->chunk_size ?
+                        static_cast<Shape>(i_begin + static_cast<Shape>(task_f->chunk_size)) :
+                        task_f->n;
                     for (auto i = i_begin; i < i_end; ++i)
                     {
                         std::apply(pika::util::detail::bind_front(op_state->f, i), ts);
@@ -183,7 +186,7 @@ namespace pika::thread_pool_bulk_detail {
             {
                 operation_state* const op_state;
                 Shape const n;
-                std::uint32_t const chunk_size;
+                std::uint64_t const chunk_size;
                 std::uint32_t const worker_thread;
 
                 // Visit the values sent by the predecessor sender.
@@ -258,14 +261,17 @@ namespace pika::thread_pool_bulk_detail {
             // a total number of items n. Returns a power-of-2 chunk
             // size that produces at most 8 and at least 4 chunks per
             // worker thread.
-            static constexpr std::uint32_t get_chunk_size(
+            // Smallest power of two such that there are at most 8 chunks per worker thread. All
+            // arithmetic is done in 64 bits and without forming chunk_size * num_threads * 8, so
+            // that neither large shapes nor 64-bit shape types wrap around.
+            static constexpr std::uint64_t get_chunk_size(
                 std::uint32_t const num_threads, Shape const n)
             {
-                std::uint32_t chunk_size = 1;
-                while (chunk_size * num_threads * 8 < static_cast<std::uint32_t>(n))
-                {
-                    chunk_size *= 2;
-                }
+                std::uint64_t const max_chunks = static_cast<std::uint64_t>(num_threads) * 8;
+                std::uint64_t const n_ = static_cast<std::uint64_t>(n);
+                std::uint64_t const min_chunk_size = n_ / max_chunks + (n_ % max_chunks != 0 ? 1 : 0);
+                std::uint64_t chunk_size = 1;
+                while (chunk_size < min_chunk_size) { chunk_size *= 2; }
                 return chunk_size;
             }
 
@@ -282,7 +288,7 @@ namespace pika::thread_pool_bulk_detail {
 
             // Spawn a task which will process a number of chunks. If
             // the queue contains no chunks no task will be spawned.
-            void do_work_task(Shape const n, std::uint32_t const chunk_size,
+            void do_work_task(Shape const n, std::uint64_t const chunk_size,
                 std::uint32_t const worker_thread) const
             {
                 task_function task_f{this->op_state, n, chunk_size, worker_thread};
@@ -325,7 +331,7 @@ namespace pika::thread_pool_bulk_detail {
             // from the predecessor sender. This thread participates in
             // the work and does not need a new task since it already
             // runs on a task.
-            void do_work_local(Shape n, std::uint32_t chunk_size, std::uint32_t worker_thread) const
+            void do_work_local(Shape n, std::uint64_t chunk_size, std::uint32_t worker_thread) const
             {
                 task_function{this->op_state, n, chunk_size, worker_thread}();
             }
@@ -345,7 +351,10 @@ namespace pika::thread_pool_bulk_detail {
                 // Calculate chunk size and number of chunks
                 auto const chunk_size =
                     get_chunk_size(r.op_state->num_worker_threads, r.op_state->shape);
-                auto const num_chunks = (r.op_state->shape + chunk_size - 1) / chunk_size;
+                // at most 8 * num_worker_threads (rounded up to a power of two): fits 32 bits
+                auto const shape_ = static_cast<std::uint64_t>(r.op_state->shape);
+                auto const num_chunks = static_cast<std::uint32_t>(
+                    shape_ / chunk_size + (shape_ % chunk_size != 0 ? 1 : 0));
 
                 // Store sent values in the operation state
                 r.op_state->ts.template emplace<std::tuple<std::decay_t<Ts>...>>(
